@@ -23,7 +23,7 @@ from engine.spec import CH, JOB, source_sha  # noqa: E402
 
 def sub(cmd, timeout, env=None):
     e = dict(os.environ)
-    e["PYTHONPATH"] = HERE
+    e["PYTHONPATH"] = (os.environ["VERIF_REPO"] + os.pathsep if os.environ.get("VERIF_REPO") else "") + HERE
     e["PYTHONHASHSEED"] = "0"
     e.update(env or {})
     t0 = time.time()
@@ -135,7 +135,7 @@ def main():
     pid = a.prop
     t0 = time.time()
     import stix2
-    if not stix2.__file__.startswith("/repo/"):
+    if not stix2.__file__.startswith(os.environ.get("VERIF_REPO", "/repo") + "/"):
         print("HARNESS-ERROR stix2 imported from", stix2.__file__)
         sys.exit(3)
     try:
@@ -169,7 +169,7 @@ def main():
     known = [k for k in load_known() if k.get("property") == pid]
     open_known = [k for k in known if k.get("status") == "open"]
     violations, known_hits, replays_done = [], [], 0
-    rdir = os.path.join(HERE, "replays", pid)
+    rdir = os.path.join(os.environ.get("VERIF_REPLAY_DIR") or os.path.join(HERE, "replays"), pid)
     for r in results:
         if r["verdict"] != "CANDIDATE":
             continue
@@ -265,7 +265,7 @@ def main():
         "violations": len(violations),
     }
     os.makedirs(os.path.join(HERE, "evidence"), exist_ok=True)
-    evname = pid + (".partial.json" if a.only else ".json")      # a filtered run never replaces the property's evidence file
+    evname = pid + (".partial.json" if (a.only or os.environ.get("VERIF_REPO")) else ".json")      # a filtered run never replaces the property's evidence file
     with open(os.path.join(HERE, "evidence", evname), "w") as f:
         json.dump(ev, f, indent=1, default=str)
     print("SUMMARY property=%s tier=%s obligations=%d holds=%d inconclusive=%d errors=%d violations=%d known=%d wall=%.1fs" % (
